@@ -1977,7 +1977,8 @@ func RegexComparison(left any, pattern string) (bool, error) {
 	regExpr := regexp.QuoteMeta(strings.ToLower(pattern))
 	regExpr = strings.ReplaceAll(regExpr, "_", ".")
 	regExpr = strings.ReplaceAll(regExpr, "%", ".*")
-	regExpr = "^" + regExpr + "$"
+	// `%` and `_` match every character, a line feed included
+	regExpr = "(?s)^" + regExpr + "$"
 	return regexp.Match(regExpr, []byte(strings.ToLower(fmt.Sprintf("%v", left))))
 }
 
